@@ -331,7 +331,7 @@ func c02tRun(in Fields) Fields {
 		}()
 		want := fmt.Sprintf("PONG :m%d", k)
 		var lines []string
-		srv.SetReadDeadline(time.Now().Add(15 * time.Second))
+		srv.SetReadDeadline(time.Now().Add(8 * time.Second))
 		for {
 			s, err := rd.ReadString('\n')
 			if err != nil {
@@ -661,6 +661,9 @@ func (g *c02tGener) conformant() {
 			if r.Chance(10) {
 				t = "-" + t
 			}
+			if r.Chance(12) {
+				t = c02HostileCapTok(r)
+			}
 			toks = append(toks, t)
 		}
 		star := ""
@@ -708,7 +711,59 @@ func (g *c02tGener) names(c string) string {
 	return strings.Join(out, " ")
 }
 
+// hostile CAP payload tokens: odd first bytes, IRCv3.2 "=value" shapes, empty token, very long
+var c02CapToks = []string{"=x", "=", "-", "--a", "a=b", "a=", "-a=b", "=PLAIN", "-=", "sasl=PLAIN,EXTERNAL", "", "~a", ":", "=sasl"}
+
+func c02HostileCapTok(r *Rand) string {
+	if r.Chance(8) {
+		return strings.Repeat(r.Pick([]string{"x", "=", "-", "a="}), r.Range(100, 600))
+	}
+	return r.Pick(c02CapToks)
+}
+
+// a CAP LS / ACK / NAK line whose payload holds at least one hostile token
+func c02HostileCapLine(r *Rand, me string) string {
+	var toks []string
+	for i := r.Range(1, 4); i > 0; i-- {
+		if r.Chance(70) {
+			toks = append(toks, c02HostileCapTok(r))
+		} else {
+			toks = append(toks, r.Pick(c02tCapPool))
+		}
+	}
+	sub := r.Pick([]string{"LS", "LS", "ACK", "ACK", "NAK"})
+	star := ""
+	if sub == "LS" && r.Chance(15) {
+		star = "* "
+	}
+	colon := ":"
+	if len(toks) == 1 && r.Chance(20) {
+		colon = ""
+	}
+	return fmt.Sprintf(":%s CAP %s %s %s%s%s", c02tSrv, r.Pick([]string{"*", me}), sub, star, colon, strings.Join(toks, " "))
+}
+
+// well-formed lines of the verbs that have a visible reply, placed AFTER hostile ones: the oracle
+// (coq/Model/ClientObs.v) requires each to be handled in its marker interval
+func (g *c02tGener) probes() {
+	r := g.r
+	g.line("PING :" + g.tok())
+	g.line(fmt.Sprintf(":pr%d!u@h PRIVMSG %s :\x01VERSION\x01", g.idx(), g.me))
+	g.line(fmt.Sprintf(":%s 433 * q%dx :Nickname is already in use", c02tSrv, g.idx()))
+	g.line(":probe.example CAP * LS :" + r.Pick([]string{"a b", "a", "zz multi-prefix"}))
+	g.line(":probe.example CAP * ACK :" + r.Pick([]string{"a", "a b"}))
+	if r.Bool() {
+		g.line(":probe.example CAP * LS :a b")
+		g.line(":probe.example CAP * ACK :a")
+	}
+	g.mark()
+}
+
 func (g *c02tGener) hostile() {
+	if g.r.Chance(12) {
+		g.line(c02HostileCapLine(g.r, g.me))
+		return
+	}
 	var s string
 	switch g.r.Intn(10) {
 	case 0:
@@ -769,10 +824,19 @@ func c02tSession(r *Rand, i int) Fields {
 		if r.Chance(60) {
 			g.mark()
 		}
+		if r.Chance(3) {
+			g.probes()
+		}
 	}
-	if len(c.items) == 0 || c.items[len(c.items)-1] != "" {
+	// every session: at least one hostile CAP LS and ACK line, then (after everything else) the probes
+	if r.Chance(70) {
+		g.line(":" + c02tSrv + " CAP * " + r.Pick([]string{"LS", "ACK"}) + " :" + r.Pick([]string{"=PLAIN", "=x", "a =", "= b", "-= sasl"}))
+	}
+	g.line(c02HostileCapLine(r, g.me))
+	if r.Bool() {
 		g.mark()
 	}
+	g.probes()
 	return c.fields()
 }
 
